@@ -47,6 +47,21 @@ Definition w_raw_payload : wcodec bytes := w_rest.                  (* Raw.Unmar
 
 Definition w_connection_id : wcodec bytes := w_exact (c_opaque 1).
 
+(* server_name (ClientHello): ServerName server_name_list<1..2^16-1> of (name_type, opaque<1..2^16-1>).
+   The decoder keeps the one host_name (type 0) entry - exactly one must be there, and it must
+   not end in '.' - and silently drops entries of other name types. *)
+Definition c_sni_entry : codec (N * bytes) := c_seq (c_u 1) (c_opaque1 2).
+Definition w_sni_list : wcodec (list (N * bytes)) :=
+  w_exact (c_vec 2 (w_check nonnil (w_list c_sni_entry))).
+Definition host_names (l : list (N * bytes)) : list bytes :=
+  map snd (filter (fun e => fst e =? 0) l).
+Definition no_trailing_dot (n : bytes) : bool := negb (last n 0 =? 46).
+Definition sni_ok (l : list (N * bytes)) : bool :=
+  match host_names l with [n] => no_trailing_dot n | _ => false end.
+Definition w_sni : wcodec bytes :=
+  w_map (fun l => hd [] (host_names l)) (fun n => [(0, n)]) (fun n => nonnil n && no_trailing_dot n)
+        (w_guard (fun _ => true) sni_ok w_sni_list).
+
 (* ProtocolName protocol_name_list<2..2^16-1>, each opaque<1..255> *)
 Definition w_alpn_list : wcodec (list bytes) :=
   w_exact (c_vec 2 (w_check nonnil (w_list (c_opaque1 1)))).
